@@ -2145,3 +2145,20 @@ example :
       (fromOpenAI [⟨.user, .parts [.text (txt bHi), .image ⟨7, true⟩]⟩])) = [0] := by decide
 
 end OllamaVerif.C19
+
+namespace OllamaVerif.C19
+open OllamaVerif OllamaVerif.Prompt
+
+/-- **First failure is not longest-fitting on a REAL template path with a whitespace tokenizer** (the tokenizer of
+    prompt_test.go): `[system a, user b, system c, user d]`, in-place template, context length 1.  The run `[2:]` is
+    measured as `[system|a\n\nc][user|d]` — collate joins the two system messages with a blank line: 2 tokens, over
+    budget — so the walk stops and keeps only the latest message, although the runs `[1:]` and `[0:]` render to
+    `[system|a][user|b][system|c][user|d]`, ONE token, and fit.  (With the byte tokenizer this cannot happen:
+    `total_antitone_inplace_bytes`.) -/
+theorem first_failure_not_longest_inplace_fields :
+    let conv : List Msg := [⟨.system, txt [97], []⟩, ⟨.user, txt [98], []⟩, ⟨.system, txt [99], []⟩, ⟨.user, txt [100], []⟩]
+    cutOf (chatPromptT ⟨true, false, 0, 1⟩ ⟨2, true⟩ tInPlace 0 conv) = some 3 ∧
+    (List.range 3).map (fun i => tcost ⟨2, true⟩ tInPlace 0 conv {} i) = [1, 1, 2] := by
+  decide
+
+end OllamaVerif.C19
